@@ -432,6 +432,9 @@ type det struct {
 	w    *world
 }
 
+// scribblers: detectors (by index) that, after looking at the index, overwrite every slice the index handed to them (op idxmut)
+var scribblers = map[*world]map[int]bool{}
+
 func (det) RequiredExtractors() []string { return nil }
 
 func (d det) ids(ps []*extractor.Package, sorted bool) string {
@@ -464,6 +467,20 @@ func (d det) Scan(_ context.Context, _ *scalibrfs.ScanRoot, px *packageindex.Pac
 		}
 	}
 	w.obs = append(w.obs, strings.Join(ob, ";"))
+	if scribblers[w][d.idx] {
+		wipe := func(ps []*extractor.Package) {
+			for i := range ps {
+				ps[i] = nil
+			}
+		}
+		wipe(px.GetAll())
+		for _, t := range w.types {
+			wipe(px.GetAllOfType(t))
+			for _, n := range w.names {
+				wipe(px.GetSpecific(n, t))
+			}
+		}
+	}
 	var out []*detector.Finding
 	if d.spec.mode == 'c' {
 		out = w.mkFindings(d.spec.findings)
@@ -601,7 +618,11 @@ func runGatedNoGuard(c tcase, gate string) string {
 		for i, d := range c.dets {
 			cfg.Detectors = append(cfg.Detectors, det{base{fmt.Sprintf("det%d", i)}, i, d, w})
 		}
-		if gate != "" && !strings.HasPrefix(gate, "C") {
+		if gate == "M" {
+			scribblers[w] = map[int]bool{0: true}
+			defer delete(scribblers, w)
+		}
+		if gate != "" && !strings.HasPrefix(gate, "C") && gate != "M" {
 			if gate[0] != '1' {
 				// '3': a STANDALONE extractor of list.go (its non-Windows build has no requirements and fails when run)
 				req := map[byte]string{'0': "nosuch/extractor", '2': "python/wheelegg", '3': "windows/dismpatch"}[gate[0]]
@@ -665,6 +686,13 @@ func runGatedNoGuard(c tcase, gate string) string {
 			}
 		} else {
 			res = scalibr.New().Scan(ctx, cfg)
+		}
+		if gate == "M" {
+			// what the FIRST detector saw and what the LAST one saw after the first overwrote the slices it had been handed
+			if len(w.obs) < 2 {
+				return "bad-op"
+			}
+			return "idx=" + w.obs[0] + " again=" + w.obs[len(w.obs)-1]
 		}
 		if gate != "" && !strings.HasPrefix(gate, "C") {
 			gerr := "-"
@@ -1313,6 +1341,19 @@ func runLine(l string) (reply string) {
 	case strings.HasPrefix(l, "scan "):
 		c := parseCase(l)
 		return run(c)
+	case strings.HasPrefix(l, "nilarg "):
+		return runNilArg(strings.TrimPrefix(l, "nilarg "))
+	case strings.HasPrefix(l, "idxmut "):
+		c := parseCase("scan " + strings.TrimPrefix(l, "idxmut "))
+		if len(c.dets) < 2 {
+			return "bad-op"
+		}
+		for _, d := range c.dets {
+			if d.canc {
+				return "bad-op"
+			}
+		}
+		return runGated(c, "M")
 	case strings.HasPrefix(l, "cscan "):
 		t := strings.SplitN(l, " ", 3)
 		if len(t) != 3 || (t[1] != "l" && t[1] != "d" && t[1] != "e") {
@@ -1405,6 +1446,21 @@ func main() {
 			v := []string{"l", "d", "l", "d", "e"}[n%5]
 			n++
 			out.Emit("cscan "+v+" "+body, runLine("cscan "+v+" "+body))
+		}
+	}
+	if want("scan") {
+		// nil optional arguments at the public entry points; detectors that overwrite what the index handed them
+		for _, e := range nilargEntries {
+			out.Emit("nilarg "+e, runLine("nilarg "+e))
+		}
+		mr := rand.New(rand.NewSource(o.Seed + 9999))
+		for n := 0; n < 60; {
+			c := randCase(mr)
+			body := strings.TrimPrefix(c.line(), "scan ")
+			if rep := runLine("idxmut " + body); rep != "bad-op" {
+				out.Emit("idxmut "+body, rep)
+				n++
+			}
 		}
 	}
 	if want("order") {
